@@ -344,6 +344,57 @@ impl Runner {
         }
     }
 
+    /// exact-mode Helmert: the linear part is `scale` times a proper rotation.  The images of
+    /// origin + L*e1, + L*e2, + L*e3 minus the image of origin are the columns of the linear part.
+    fn iso(&mut self, c: &Value) {
+        let o = tuples(&json!([c["origin"]]))[0];
+        let l = c["L"].as_f64().unwrap_or(1e6);
+        let want = c["scale"].as_f64().unwrap_or(1.0);
+        let tol = c["tol"].as_f64().unwrap_or(1e-12);
+        let mut input = vec![o; 4];
+        for i in 0..3 {
+            input[i + 1][i] += l;
+        }
+        let route = json!({"def": c["def"], "dir": c["dir"]});
+        let (n, out) = match self.apply(&route, &input) {
+            Applied::Ok(n, d) => (n, d),
+            Applied::Rejected(e) => return self.fail(c, "rejected", json!(e)),
+            Applied::Panic(e) => return self.fail(c, "panic", json!(e)),
+        };
+        if n != 4 {
+            return self.fail(c, "count", json!({"expected":4,"observed":n}));
+        }
+        let col = |i: usize| [(out[i + 1][0] - out[0][0]) / l, (out[i + 1][1] - out[0][1]) / l, (out[i + 1][2] - out[0][2]) / l];
+        let m = [col(0), col(1), col(2)];
+        let dot = |a: &[f64; 3], b: &[f64; 3]| a[0] * b[0] + a[1] * b[1] + a[2] * b[2];
+        let mut worst = 0.0_f64;
+        let mut what = String::new();
+        for i in 0..3 {
+            for j in i..3 {
+                let g = dot(&m[i], &m[j]);
+                let e = if i == j { (g.sqrt() - want).abs() / want } else { g.abs() / (want * want) };
+                if !(e <= worst) {
+                    worst = e;
+                    what = if i == j { format!("length of the image of axis {}", i + 1) } else { format!("angle between the images of axes {} and {}", i + 1, j + 1) };
+                }
+            }
+        }
+        let det = m[0][0] * (m[1][1] * m[2][2] - m[1][2] * m[2][1]) - m[0][1] * (m[1][0] * m[2][2] - m[1][2] * m[2][0])
+            + m[0][2] * (m[1][0] * m[2][1] - m[1][1] * m[2][0]);
+        if !(worst <= tol) {
+            return self.fail(c, "not a similarity", json!({"worst": what, "relative_error": if worst.is_nan() {json!("NaN")} else {json!(worst)},
+                "scale_expected": want, "columns": m.iter().map(|c| c.to_vec()).collect::<Vec<_>>(), "output": show(&out)}));
+        }
+        if !(det > 0.0) {
+            return self.fail(c, "orientation reversed", json!({"determinant": det}));
+        }
+        for k in 0..4 {
+            if !bits_eq(out[k][3], input[k][3]) {
+                return self.fail(c, "fourth element touched", json!({"tuple": k}));
+            }
+        }
+    }
+
     fn params(&mut self, c: &Value) {
         let def = c["def"].as_str().unwrap_or("");
         let h = match self.op(def) {
@@ -480,6 +531,7 @@ fn replay(input: &str, output: &str) -> i32 {
         match c["k"].as_str().unwrap_or("") {
             "rel" => r.rel(&c),
             "approx" => r.approx(&c),
+            "iso" => r.iso(&c),
             "params" => r.params(&c),
             "op" => r.opcase(&c),
             "projdef" => {
